@@ -124,8 +124,24 @@ def projects(draw, o=None):
             dofiles[dof] = {"v": 1, "body": gen_body(draw, avail, o, "t%d" % i)}
             dometa[dof] = i
         targets.append(t)
+    gendirs = []
+    if draw(st.integers(0, 99)) < o.get("p_gendir", 0):
+        # a directory that holds nothing but generated files (built by a default rule in the root): the user may
+        # remove it wholesale (rm -rf build/) and create it again; while it is missing, builds into it fail
+        dirs.append("g")
+        gendirs.append("g")
+        avail = sources + targets
+        body = gen_body(draw, avail, dict(o, p_ifc=0, p_ifcreate_raw=0, p_usermod=0), "q")
+        dofiles["default.q.do"] = {"v": 1, "body": body}
+        dometa["default.q.do"] = len(targets)
+        for k_ in range(draw(st.integers(1, 2))):
+            targets.append("g/u%d.q" % k_)
+        if draw(st.integers(0, 1)):
+            dofiles["gp.do"] = {"v": 1, "body": [["dep", 1, ["g/u0.q"]], ["out", "stdout"]]}
+            dometa["gp.do"] = len(targets)
+            targets.append("gp")
     proj = {"dirs": dirs, "sources": sources, "dofiles": dofiles, "targets": targets, "watch": watch,
-            "dometa": dometa}
+            "dometa": dometa, "gendirs": gendirs}
     # per-target inputs required by depstem rules
     fix_stem_sources(proj)
     return proj
@@ -176,7 +192,8 @@ def histories(draw, o=None):
     kinds = []
     for k, dflt in (("cmd", 40), ("edit", 16), ("touch", 4), ("rmtarget", 8), ("setdo", 8), ("adddo", 4),
                     ("rmdo", 3), ("mkpath", 5), ("rmpath", 3), ("ext", 4), ("failflag", 6), ("query", 0),
-                    ("mwrite", 0), ("mreplace", 0), ("mremove", 0), ("redo", 8), ("stampflag", 0), ("crash", 0), ("usermodflag", 0), ("dropdep", 0), ("msymlink", 0)):
+                    ("mwrite", 0), ("mreplace", 0), ("mremove", 0), ("redo", 8), ("stampflag", 0), ("crash", 0), ("usermodflag", 0), ("dropdep", 0), ("msymlink", 0),
+                    ("rmgendir", 0), ("mkgendir", 0)):
         kinds += [k] * w.get(k, dflt)
     ops = []
     # locality: with probability p_focus an operation that names a target names one of 1-2 "focus" targets, so that
@@ -297,6 +314,19 @@ def histories(draw, o=None):
                         ops.append(["cmd", "ifchange", [req], ""])
                     ops.append(["edit", q, draw(st.integers(0, o.get("edit_variants", 3) - 1))])
                     ops.append(["cmd", "ifchange", [req], ""])
+        elif k in ("rmgendir", "mkgendir"):
+            if proj.get("gendirs"):
+                ops.append([k, proj["gendirs"][0]])
+                if k == "rmgendir" and draw(st.integers(0, 99)) < 60:
+                    # the shape of interest: a build into the missing directory (fails), the directory comes back,
+                    # the same build again
+                    gts = [t for t in targets if t.startswith(proj["gendirs"][0] + "/")] + (["gp"] if "gp" in targets else [])
+                    req = [_pick(draw, gts)]
+                    if draw(st.integers(0, 1)):
+                        ops.append(["edit", _pick(draw, sources), draw(st.integers(0, o.get("edit_variants", 3) - 1))])
+                    ops.append(["cmd", "ifchange", req, ""])
+                    ops.append(["mkgendir", proj["gendirs"][0]])
+                    ops.append(["cmd", "ifchange", req, ""])
         elif k == "usermodflag":
             ops.append(["usermodflag", pick_target()])
         elif k == "crash":
